@@ -31,7 +31,7 @@ TIERS = {
     "thorough": {"shards": 16, "cases": 1600, "max_ratio": 3e4, "timeout": 3400},
 }
 FLOORS = {
-    "quick": {"counts": {"segments_measured": 100000, "requests_after_other_shapes_on_the_same_builder": 40, "constant_speed_shapes": 150,
+    "quick": {"counts": {"requests_far_from_the_origin": 15, "segments_measured": 100000, "requests_after_other_shapes_on_the_same_builder": 40, "constant_speed_shapes": 150,
                          "halving_comparisons": 250, "unit_switch_checks": 300, "steep_ramps_to_zero": 15}, "keys": 40},
     "thorough": {"counts": {"segments_measured": 3000000, "constant_speed_shapes": 800}, "keys": 60},
 }
@@ -81,6 +81,10 @@ def run_case(ctx, col, case):
     sign = rng.choice([-1, 1])
     units = rng.choice(["mm", "mm", "in"])
     o = (rng.uniform(-30, 30), rng.uniform(-30, 30), rng.uniform(-5, 5))
+    if rng.random() < 0.15:
+        # far from the origin: the sampling works on differences of large absolute coordinates
+        o = (rng.choice([-1, 1]) * rng.uniform(1000, 4000), rng.choice([-1, 1]) * rng.uniform(1000, 4000), o[2])
+        col.count("requests_far_from_the_origin")
     const = rng.random() < 0.7
     if const:
         kind = rng.choice(["arc", "arc_radius", "circle", "helix_const", "thread"])
